@@ -154,6 +154,10 @@ ACCS = {
     'dq3': (_dq, 'any', 'deque', True),
     'pairsum': (lambda a, i: (a[0] + i, a[1] + 1), 'int', 'tup2', False),
     'tupcat': (lambda a, i: a + (i,), 'any', 'tup', False),
+    # accumulators over records (C13: the fault plan identifies calls by the record's party and ordinal)
+    'r_sum': (lambda a, r: a + r.v, 'rec', 'int', False),
+    'r_cnt': (lambda a, r: a + 1, 'rec', 'int', False),
+    'r_list': (lambda a, r: a + [r.v], 'rec', 'list', False),
 }
 
 # seed name -> (seed object passed to rs.ops.scan, state_type)
